@@ -2,8 +2,8 @@
 # Demonstrates that the C20 check can fail: applies every /verif/mutants/c20-*.patch (or those whose
 # name contains $1) to a scratch worktree of /repo, runs the repository's own tests of the touched
 # package, then the quick tier against the scratch tree. Prints one markdown table row per mutant.
-# The unchanged tree already yields the empty-message finding (see FINDINGS.md), so a mutant counts as
-# caught only by violation signatures OTHER than that one.
+# (The empty-message finding F1 of the first round is fixed in /repo since 8608b2c; its signature is still
+# filtered out below so that the script also works on older trees.)
 # lib/p2p has two tests that fail at baseline (TestNetAddressProperties, TestNetAddressReachabilityTo);
 # "pass" for that package means: no other test fails.
 export GOFLAGS=-mod=mod GOPROXY=off GOSUMDB=off GOTOOLCHAIN=local
